@@ -422,5 +422,6 @@ func retryable(err error) bool {
 
 	return errors.Is(err, ErrConnectionClosed) ||
 		errors.Is(err, ErrNotAvailableStreams) ||
+		errors.Is(err, ErrGoAway) ||
 		errors.Is(err, ErrNoMoreStreamIDs)
 }
